@@ -74,13 +74,24 @@ structure WantCode where
   name : String
   fields : List Want
   ctor : List Want
+  /-- modifier words of the fields, one entry per field (`[]`: not recorded for the target) -/
+  fmods : List String := []
+  /-- accessors of the fields -/
+  methods : List WantMethod := []
+
+/-- one error code: its fields (names, types, modifiers), the parameters of its constructor and the accessors of its fields
+    (`code-method-count`, `code-method-names`, `code-method-return-types`, `code-method-mods`, `code-param-…`) -/
+def codeOk (dc : Bool) (w : WantCode) (g : CodeS) : List String :=
+  membersOk "code-field" dc w.fields g.fields ++ membersOk "code-ctor" false w.ctor g.ctor ++
+  (if g.fmods != w.fmods then ["code-field-mods"] else []) ++
+  (methodsOk w.methods g.methods).map ("code-" ++ ·)
 
 def codesOk (dc : Bool) (want : List WantCode) (got : List CodeS) : List String :=
   if got.length != want.length then ["code-count"] else
   let wn := want.map (·.name)
   let gn := got.map (·.name)
   if gn != wn then [if isPermOf gn wn then "code-order" else "code-names"] else
-  (List.zipWith (fun w g => membersOk "code-field" dc w.fields g.fields ++ membersOk "code-ctor" false w.ctor g.ctor) want got).flatten.eraseDups
+  (List.zipWith (codeOk dc) want got).flatten.eraseDups
 
 structure WantDecl where
   kind : String
@@ -94,12 +105,15 @@ structure WantDecl where
   codes : List WantCode := []
   /-- C++: data members are `const`-qualified -/
   constFields : Bool := false
+  /-- modifier words of the fields, one entry per field (`[]`: not recorded for the target) -/
+  fmods : List String := []
 
 def declOk (w : WantDecl) (g : DeclS) : List String :=
   (if g.kind != w.kind then ["kind"] else []) ++
   (if g.name != w.name then ["name"] else []) ++
   (if g.scope != w.scope then ["scope"] else []) ++
   (if g.mods != w.mods then ["mods"] else []) ++
+  (if g.fmods != w.fmods then ["field-mods"] else []) ++
   membersOk "field" w.constFields w.fields g.fields ++
   membersOk "ctor" false w.ctor g.ctor ++
   methodsOk w.methods g.methods ++
@@ -158,8 +172,13 @@ def javaWantMethod (c : JavaCfg) (m : MethodD) : WantMethod :=
   { pre := ["public", if m.isStatic then "static" else "abstract"], ret := refJavaRet c m.ret m.isAsync,
     name := convert c.methodStyle m.name, params := m.params.map (javaWantMember c), post := javaWantThrows c m }
 
+/-- fields of records and of error codes are `final` iff `use_final_for_record` -/
+def javaWantFieldMod (c : JavaCfg) : String := if c.useFinal then "final" else ""
+
+/-- an error code exposes each parameter like a record exposes a field: field, constructor parameter, getter -/
 def javaWantCode (c : JavaCfg) (k : CodeD) : WantCode :=
-  { name := convert c.tyStyle k.name, fields := k.params.map (javaWantMember c), ctor := k.params.map (javaWantMember c) }
+  { name := convert c.tyStyle k.name, fields := k.params.map (javaWantMember c), ctor := k.params.map (javaWantMember c),
+    fmods := k.params.map (fun _ => javaWantFieldMod c), methods := k.params.map (javaWantGetter c) }
 
 def wantJava (c : JavaCfg) (d : Decl) : WantDecl :=
   let u := d.info
@@ -176,7 +195,8 @@ def wantJava (c : JavaCfg) (d : Decl) : WantDecl :=
   | .record _ fields _ _ =>
     { common with
       kind := "struct", mods := pub ++ (if c.useFinal && !u.targets.contains "java" then ["final"] else []),
-      fields := fields.map (javaWantMember c), ctor := fields.map (javaWantMember c), methods := fields.map (javaWantGetter c) }
+      fields := fields.map (javaWantMember c), ctor := fields.map (javaWantMember c), methods := fields.map (javaWantGetter c),
+      fmods := fields.map (fun _ => javaWantFieldMod c) }
   | .interface _ methods =>
     { common with
       kind := "class", mods := pub ++ ["abstract"], methods := methods.map (javaWantMethod c) }
